@@ -379,9 +379,14 @@ def run_case(case, ctx):
             if len(kid) != 1:
                 continue
             twice = d.insert_after(kid[0], d.outer(kid[0])).b
-            parsed = saml2_tophat.create_class_from_xml_string(cls, twice)
         except Exception:
             hit("parsed_duplicate_not_buildable")
+            continue
+        try:
+            parsed = saml2_tophat.create_class_from_xml_string(cls, twice)
+        except Exception:
+            hit("parsed_duplicate_refused_by_parser")      # refusing the text is a rejection too
+            sigs.append([case["module"], case["cls"], "repeated-single-child-in-text", member, "refused-while-parsing"])
             continue
         if parsed is None:
             hit("parsed_duplicate_refused_by_parser")
